@@ -14,6 +14,7 @@ import (
 	"encoding/binary"
 	"fmt"
 	"os"
+	"strings"
 )
 
 func init() {
@@ -22,6 +23,15 @@ func init() {
 }
 
 func replayC03(c *Ctx, op string, args []string) bool {
+	// the streams of the other NBT decoding entry points that C03 runs as well
+	switch {
+	case strings.HasPrefix(op, "dynbt."):
+		return replayDYNBT(c, op, args)
+	case strings.HasPrefix(op, "snbt."):
+		return replayC04(c, op, args)
+	case strings.HasPrefix(op, "c02."):
+		return replayC02(c, op, args)
+	}
 	if op != "c03.dec" || len(args) != 4 {
 		return false
 	}
@@ -92,7 +102,7 @@ func genC03(c *Ctx) {
 	}
 
 	tagSubst := []byte{0, 1, 2, 3, 4, 5, 6, 7, 8, 9, 10, 11, 12, 13, 14, 15, 0x1f, 0x78, 0xff}
-	for i := 0; i < c.N(700, 6000); i++ {
+	for i := 0; i < c.N(450, 6000); i++ {
 		var t *nbtNode
 		switch i % 4 {
 		case 0:
@@ -184,4 +194,16 @@ func genC03(c *Ctx) {
 		s.emit(d, []string{"file", "net"}[i%2], []string{all[i%len(all)]})
 	}
 	fmt.Fprintf(os.Stderr, "c03: %d cases emitted, %d (entry point, input) pairs held back by the allocation cap\n", s.n, s.heldBack)
+
+	// typed destinations (structs, maps, slices, arrays, pointers, interfaces, carriers inside them): encodings of
+	// values, mutations, foreign documents, duplicate keys, destinations with a history (harness/c02gen.go)
+	cg := &c02Gen{c: c, r: c.R, g: g, gf: &nbtGen{r: c.R, noFloat: true}}
+	descs, types := c02Types(c, cg, c.N(25, 600))
+	c02GenDec(c, cg, descs, types, c.N(4, 30), c.N(3, 30))
+	// dynbt.Value (harness/dynbt.go) and StringifiedMessage.UnmarshalNBT / RawMessage.String (harness/c04.go):
+	// the malformed streams of their own checks
+	genDYNBT(c)
+	g4 := &c04Gen{c: c}
+	g4.genDocs()
+	g4.genMalformed()
 }
